@@ -14,9 +14,9 @@ OUTSIDE = ["vdir has no ctag (get_ctag raises NotImplementedError) - the claim i
 ASSUMPTIONS = ["A1, A2 and the body-token conventions of C01"]
 
 
-def body_ctag_step(c0, c1, c2, target, body):
+def body_ctag_step(c0, c1, c2, target, body, hist):
     kind, op, cond = ctx.PART
-    f = _store.step(kind, [c0, c1, c2], ctx.b.n, op, target, body, cond)
+    f = _store.step(kind, [c0, c1, c2], ctx.b.n, op, target, body, cond, hist=hist)
     if f is None:
         return (True, "pre-invalid")
     changed = f["S2"] != f["S"]
@@ -34,13 +34,43 @@ def body_ctag_step(c0, c1, c2, target, body):
     return (ok, _store.opname(op) + (":changed" if changed else ":same"))
 
 
-def h_ctag_step(c0: bytes, c1: bytes, c2: bytes, target: int, body: bytes) -> bool:
+def h_ctag_step(c0: bytes, c1: bytes, c2: bytes, target: int, body: bytes, hist: int) -> bool:
     """
     pre: len(c0) <= ctx.b.blen and len(c1) <= ctx.b.blen and len(c2) <= ctx.b.blen and len(body) <= ctx.b.blen
-    pre: 0 <= target < ctx.b.n + 3
+    pre: 0 <= target < ctx.b.n + 3 and 0 <= hist <= 2
     post: _
     """
-    return run(body_ctag_step, c0, c1, c2, target, body)
+    return run(body_ctag_step, c0, c1, c2, target, body, hist)
+
+
+def body_ctag_fault(c0, c1, target, body, k):
+    """A write that fails part-way (injected ENOSPC / failed ref update at the k-th mutation) must not move the tag,
+    neither as seen by the same store object (caches!) nor by a fresh one."""
+    kind, op = ctx.PART
+    f = _store.step(kind, [c0, c1, b""], 2, op, target, body, 0, fault_at=k)
+    if f is None:
+        return (True, "pre-invalid")
+    if f["faulted"] is None:
+        return (f["ctag1"] == _store.expected_ctag(f["S2"]), "no-fault")
+    ok = f["outcome"] != "ok" and f["ctag1"] == f["ctag0"] and f["ctag_restart"] == f["ctag0"]
+    # ... and the next successful write still produces the tag of the right state
+    store = f["store"]
+    try:
+        store.import_one("z.vcf", None, [b"v9"], message="m")
+        S3 = dict(f["S"])
+        S3["z.vcf"] = b"v9"
+        ok = ok and store.get_ctag() == _store.expected_ctag(S3)
+    except Exception:
+        ok = False
+    return (ok, "fault:" + f["faulted"])
+
+
+def h_ctag_fault(c0: bytes, c1: bytes, target: int, body: bytes, k: int) -> bool:
+    """
+    pre: len(c0) <= 2 and len(c1) <= 2 and len(body) <= 2 and 0 <= target < 5 and 1 <= k <= 12
+    post: _
+    """
+    return run(body_ctag_fault, c0, c1, target, body, k)
 
 
 HARNESSES = [
@@ -53,4 +83,10 @@ HARNESSES = [
             encodes=_store.STEP_ENCODES + ["xandikos.web.StoreBasedCollection.get_ctag",
                                            "xandikos.web.StoreBasedCollection.get_sync_token",
                                            "xandikos.web.StoreBasedCollection.get_etag"]),
+    Harness("ctag_fault", h_ctag_fault, body_ctag_fault,
+            classes=[("fault:obj-add", ("bare", 0)), ("fault:ref-set", ("bare", 1)), ("fault:append", ("tree", 0))],
+            parts={"quick": [(k, op) for k in ("bare", "tree") for op in (0, 1)]}, budget={"quick": 60, "thorough": 420},
+            describe="a put / delete failing at its k-th mutation leaves the tag unchanged (same and fresh store object) and "
+                     "the next successful write yields the tag of the right state; part = (back end, operation)",
+            encodes=_store.STEP_ENCODES),
 ]
